@@ -37,8 +37,8 @@ func a16Base(h *H, nb int, version string) BeState {
 	for i := 0; i < nb; i++ {
 		t.Mutate(2 + h.Intn(6))
 		cli.MustRun("backup", "--pack-size", "4", t.Dir)
+		a16Note(OpenRepoOn(be, "geheim"), be)
 	}
-	_ = be
 	return DumpBackend(be)
 }
 
